@@ -344,6 +344,27 @@ def check_filestat(chk, tu):
                 want = sorted(lay['fields'].values())
                 chk.expect(got == want, 'R12.2', '%s/%s:layout' % (gen, imp),
                            '%s filestat is stored as (offset, bits) %r; the witx layout is %r' % (gen, got, want), site)
+                # value provenance: each field carries the same-named host field, never through a narrower integer type
+                src = {'dev': ['st_dev'], 'ino': ['st_ino'], 'nlink': ['st_nlink'], 'size': ['st_size'],
+                       'atim': ['st_atim', 'tv_sec', 'tv_nsec', '1000000000'], 'mtim': ['st_mtim', 'tv_sec', 'tv_nsec', '1000000000'],
+                       'ctim': ['st_ctim', 'tv_sec', 'tv_nsec', '1000000000']}
+                byoff = {offset_from(a[1], stat): a for n, a, l in p.events if n == 'gstore'}
+                for fld, (off, bits) in lay['fields'].items():
+                    if fld not in src or off not in byoff:
+                        continue
+                    val = byoff[off][2]
+                    text = repr(val)
+                    narrow = []
+                    for x in pe.sym_walk(val):
+                        if is_sym(x) and x.op == 'cast':
+                            ti = astdb.int_type_info(tu.desugar(x.ctype))
+                            if ti is not None and ti[0] < bits:
+                                narrow.append(x.ctype)
+                    ok_src = all(k in text for k in src[fld])
+                    chk.expect(ok_src and not narrow, 'R12.2', '%s/%s:value:%s' % (gen, imp, fld),
+                               '%s filestat field %s (%d bits at offset %d) is stored from %s%s; expected the host %s without narrowing - '
+                               'values that do not fit the narrower type (e.g. sizes >= 4 GiB) are reported wrongly'
+                               % (gen, fld, bits, off, text[:160], ' through %r' % narrow if narrow else '', '/'.join(src[fld][:1])), site + ':value')
                 ms = [a for n, a, l in p.events if n == 'extern:memset']
                 okz = len(ms) == 1 and offset_from(ms[0][0], unk('gdata')) is None and ms[0][1] == 0 and ms[0][2] == lay['size']
                 zs = ms[0][2] if ms else None
@@ -445,6 +466,23 @@ def check_close(chk, tu):
                 chk.expect(p.ret != SUCCESS, 'R12.6', '%s/fd_close:failure-reported' % gen, 'fd_close hides a failed close()', 'fd_close')
 
 
+def check_raw_guest_writes(chk, tu):
+    """R12.2 (general form): the I/O imports write guest memory only through the typed store helpers and through host calls that get
+    the guest buffer with the guest's length"""
+    eps = W.entry_points(tu)
+    for imp in ('fd_read', 'fd_write', 'fd_pread', 'fd_pwrite', 'fd_seek', 'fd_tell', 'path_open', 'fd_filestat_get', 'path_filestat_get',
+                'fd_fdstat_get'):
+        for gen, f in sorted(eps.get(imp, {}).items()):
+            try:
+                raw, n = W.raw_guest_writes(tu, f, lambda: std_table(2), max_paths=2000)
+            except pe.PEError as e:
+                chk.note('raw guest writes of %s/%s not decided: %s' % (gen, imp, str(e)[:80]))
+                continue
+            chk.expect(not raw, 'R12.2', '%s/%s:no-raw-guest-writes' % (gen, imp),
+                       '%s writes guest memory through %s itself (outside the typed store helpers and host calls bounded by the guest length)'
+                       % (imp, ', '.join(sorted(raw))), imp + ':raw-guest-write')
+
+
 def run(chk):
     chk.explanation = (
         'Each I/O import of both ABI generations is partially evaluated with a symbolic guest memory and a descriptor table; the path '
@@ -463,6 +501,7 @@ def run(chk):
     check_open_flags(chk, tu, macros)
     check_filestat(chk, tu)
     check_positional(chk, tu, macros)
+    check_raw_guest_writes(chk, tu)
     check_close(chk, tu)
     chk.floor('R12.1', 18)
     chk.floor('R12.2', 20)
